@@ -85,6 +85,14 @@ def constructed(rng):
                 out += all_ops(-c, k)
         for s in range(19):
             out += all_ops(v if rng.random() < 0.5 else -v, s)
+    # coefficients with binary-structured limbs, and literals whose leading digits form a binary-structured number
+    # (carry propagation in limb-wise digit accumulation), at the scales that align the parser's digit groups
+    for _ in range(1500):
+        c = G.limb_structured(rng) if rng.random() < 0.4 else G.prefix_structured(rng)
+        if c == 0:
+            continue
+        for s in set((0, 8, 16, rng.randrange(0, 19))):
+            out += all_ops(c if rng.random() < 0.7 else -c, s)
     return out
 
 
